@@ -111,8 +111,18 @@ class G15:
             a = self.fresh("ar")
             x = self.fresh("x")
             return "var %s = (%s) => (%s + %s) %% 9973; log(%d, %s(%s));" % (a, x, x, self.expr(vis), t, a, self.expr(vis))
-        if r < 0.87:
+        if r < 0.85:
             return "log(%d, arguments.length + (arguments.length ? arguments[0] : 0));" % t
+        if r < 0.87:
+            # enumeration order of an object with data properties and several accessor names
+            o = self.fresh("ob")
+            names = [self.fresh("k") for _ in range(rng.randrange(2, 5))]
+            props = ["%s: %s" % (self.fresh("d"), self.expr(vis))]
+            for nm in names:
+                props.append(rng.choice(("get %s(){ return 1; }", "set %s(v){ }")) % nm)
+            props.append("%s: 2" % self.fresh("d"))
+            return ("var %s = {%s}; var %s_k = []; for (var %s_q in %s) { %s_k.push(%s_q); } log(%d, %s_k.join(',')); "
+                    "log(%d, Object.keys(%s).join(','));" % (o, ", ".join(props), o, o, o, o, o, t, o, t, o))
         if r < 0.89:
             # values rendered by the engine itself (object/function/array stringification, typeof)
             return "log(%d, String({q: %s}) + '|' + typeof function(){} + '|' + [1, [2, 3]].length + '|' + String(function zzf(){}).length);" % (t, self.expr(vis))
